@@ -298,6 +298,138 @@ Proof.
 Qed.
 
 (* ------------------------------------------------------------------------------------------------------------ *)
+(* round trips: ConvertUnitsBack against ConvertUnits, and against the post-read heuristics                      *)
+(* ------------------------------------------------------------------------------------------------------------ *)
+
+Lemma same_dim_sym a b : same_dim a b = same_dim b a.
+Proof. unfold same_dim. apply Nat.eqb_sym. Qed.
+
+(* ConvertUnitsBack and ConvertUnits implement ONE affine map: giving ConvertUnitsBack the user's pair (x, u) yields the
+   value ConvertUnits stores for the text "x u" *)
+Lemma back_agrees_with_convert T sp pref u x o n v c' b :
+  table_wf T -> s_pref sp = pref ->
+  t_parse T pref = Some o -> t_parse T u = Some n -> same_dim o n = true -> ~ pu_fac o == 0 ->
+  convert_units_pint T (UEnum pref) x u = ROk (v, c') ->
+  exists st', convert_units_back T sp (mkP x (UEnum u) b) = ROk st' /\ p_value st' == v /\ p_cur st' = UEnum pref.
+Proof.
+  intros WF Hp Po Pn D Ho H.
+  unfold convert_units_back. cbn [p_cur p_value p_provided parse_uref]. rewrite Hp, Pn, Po, (same_dim_sym n o), D.
+  eexists. split; [reflexivity|]. cbn [p_value p_cur]. split; [|reflexivity].
+  unfold convert_units_pint in H. rewrite Po, Pn in H.
+  destruct (String.eqb (pu_canon o) (pu_canon n)) eqn:Ec.
+  - inversion H; subst v c'. apply String_eqb_true in Ec. pose proof (WF _ _ _ _ Po Pn Ec) as S.
+    rewrite <- (convert_same_source o n o x S). apply convert_id. exact Ho.
+  - destruct (t_lookup T u); try discriminate; rewrite D in H; cbn [negb] in H;
+    destruct (t_lookup T (pu_canon o)); try discriminate; inversion H; reflexivity.
+Qed.
+
+(* a value re-expressed in any unit of the catalogue and converted back is the value (what the echo relies on) *)
+Lemma back_reexpress_roundtrip T sp c v a p b :
+  t_parse T (s_pref sp) = Some p -> t_parse T c = Some a -> same_dim a p = true ->
+  ~ pu_fac a == 0 -> ~ pu_fac p == 0 ->
+  exists st', convert_units_back T sp (mkP (convert p a v) (UEnum c) b) = ROk st' /\
+              p_value st' == v /\ p_cur st' = UEnum (s_pref sp).
+Proof.
+  intros Pp Pa D Ha Hp. unfold convert_units_back. cbn [p_cur p_value p_provided parse_uref]. rewrite Pa, Pp, D.
+  eexists. split; [reflexivity|]. cbn [p_value p_cur]. split; [|reflexivity].
+  apply convert_roundtrip; assumption.
+Qed.
+
+(* well diameters: "anything > 2 must be inches" -> value * 0.0254, CurrentUnits = METERS.  Whatever the branch, the pair
+   still denotes the diameter read in inches ... *)
+Lemma post_diameter_denotes T st i m :
+  t_parse T "in" = Some i -> t_parse T "meter" = Some m ->
+  pu_fac i == (254 # 10000) * pu_fac m -> pu_off i == 0 -> pu_off m == 0 ->
+  p_cur st = UEnum "in" ->
+  denotes T (p_cur (post_diameter st)) (p_value (post_diameter st)) (to_base i (p_value st)).
+Proof.
+  intros Pi Pm F Oi Om Hc. unfold post_diameter. destruct (Qltb 2 (p_value st)).
+  - exists m. split; [cbn; exact Pm|]. cbn. unfold to_base. rewrite F, Oi, Om. ring.
+  - exists i. split; [rewrite Hc; cbn; exact Pi|]. reflexivity.
+Qed.
+
+(* ... and Outputs._convert_units gives back exactly the number that was read, in inches *)
+Lemma post_diameter_echo_roundtrip T sp st i m :
+  s_pref sp = "in" -> t_parse T "in" = Some i -> t_parse T "meter" = Some m -> same_dim m i = true ->
+  pu_fac i == (254 # 10000) * pu_fac m -> pu_off i == 0 -> pu_off m == 0 -> ~ pu_fac m == 0 ->
+  p_cur st = UEnum "in" ->
+  exists st', echo_state T sp (post_diameter st) = ROk st' /\ p_value st' == p_value st /\ units_match "in" (p_cur st') = true.
+Proof.
+  intros Hp Pi Pm D F Oi Om Hm Hc. unfold post_diameter. destruct (Qltb 2 (p_value st)).
+  - unfold echo_state. rewrite Hp. cbn [p_cur units_match]. replace (String.eqb "in" "meter") with false by reflexivity.
+    unfold convert_units_back. cbn [p_cur p_value p_provided parse_uref]. rewrite Hp, Pm, Pi, D.
+    eexists. split; [reflexivity|]. cbn [p_value p_cur]. split; [|reflexivity].
+    unfold convert, to_base, from_base. rewrite F, Oi, Om. field. exact Hm.
+  - exists st. unfold echo_state. rewrite Hp, Hc. cbn. split; [reflexivity|]. split; reflexivity.
+Qed.
+
+(* 'Reservoir Depth': the echo gives back the kilometres that were read *)
+Lemma post_depth_echo_roundtrip T sp st km m :
+  s_pref sp = "kilometer" -> t_parse T "kilometer" = Some km -> t_parse T "meter" = Some m -> same_dim m km = true ->
+  pu_fac km == 1000 * pu_fac m -> pu_off km == 0 -> pu_off m == 0 -> ~ pu_fac m == 0 ->
+  exists st', echo_state T sp (post_depth st) = ROk st' /\ p_value st' == p_value st /\ p_cur st' = UEnum "kilometer".
+Proof.
+  intros Hp Pk Pm D F Ok Om Hm. unfold echo_state, post_depth. rewrite Hp. cbn [p_cur units_match].
+  replace (String.eqb "kilometer" "meter") with false by reflexivity.
+  unfold convert_units_back. cbn [p_cur p_value p_provided parse_uref]. rewrite Hp, Pm, Pk, D.
+  eexists. split; [reflexivity|]. cbn [p_value p_cur]. split; [|reflexivity].
+  unfold convert, to_base, from_base. rewrite F, Ok, Om. field. exact Hm.
+Qed.
+
+(* Economics.Calculate puts a depth > 500 m back into kilometres: in both branches the pair still denotes the depth *)
+Lemma post_depth_back_denotes T st km m q :
+  t_parse T "kilometer" = Some km -> t_parse T "meter" = Some m ->
+  pu_fac km == 1000 * pu_fac m -> pu_off km == 0 -> pu_off m == 0 ->
+  p_cur st = UEnum "meter" -> to_base m (p_value st) == q ->
+  denotes T (p_cur (post_depth_back st)) (p_value (post_depth_back st)) q.
+Proof.
+  intros Pk Pm F Ok Om Hc H. unfold post_depth_back. destruct (Qltb 500 (p_value st)).
+  - exists km. split; [cbn; exact Pk|]. cbn. rewrite <- H. unfold to_base. rewrite F, Ok, Om. field.
+  - exists m. split; [rewrite Hc; cbn; exact Pm|]. exact H.
+Qed.
+
+(* read, x1000, and (when deeper than 500 m) back: the kilometres that were read *)
+Lemma post_depth_there_and_back st :
+  Qltb 500 (p_value st * 1000) = true ->
+  p_value (post_depth_back (post_depth st)) == p_value st /\ p_cur (post_depth_back (post_depth st)) = UEnum "kilometer".
+Proof.
+  intros H. unfold post_depth_back, post_depth. cbn [p_value p_cur p_provided]. rewrite H. cbn. split; [field|reflexivity].
+Qed.
+
+(* 'Reservoir Impedance' x 1000: the unit is kept, so the stored pair is 1000 times the quantity read; the report line
+   (value / 1000 next to CurrentUnits) undoes exactly that *)
+Lemma post_impedance_echo st :
+  p_value (post_impedance st) / 1000 == p_value st /\ p_cur (post_impedance st) = p_cur st.
+Proof. unfold post_impedance. cbn. split; [field|reflexivity]. Qed.
+
+Lemma post_impedance_denotation T st c :
+  parse_uref T (p_cur st) = Some c -> pu_off c == 0 ->
+  to_base c (p_value (post_impedance st)) == 1000 * to_base c (p_value st).
+Proof. intros _ O. unfold post_impedance, to_base. cbn. rewrite O. ring. Qed.
+
+(* ------------------------------------------------------------------------------------------------------------ *)
+(* one-line list parameters                                                                                      *)
+(* ------------------------------------------------------------------------------------------------------------ *)
+
+(* a line on which any element carries a unit suffix never changes the list: it raises, or (first element out of range)
+   is ignored with a warning *)
+Lemma read_list_line_units_never_read T sp o x u raw r :
+  existsb snd raw = true -> read_list_line T sp o x u raw = ROk r -> o_vals r = o_vals o.
+Proof.
+  intros Hs H. unfold read_list_line in H.
+  destruct (match u with None => ROk (x, o_cur o) | Some ut => convert_units T sp (o_cur o) x ut end) as [[v cur]|]; [|discriminate].
+  destruct (Qltb v (s_min sp) || Qltb (s_max sp) v).
+  - inversion H. reflexivity.
+  - rewrite Hs in H. discriminate.
+Qed.
+
+(* without suffixes (and the first element in range) the list is exactly the numbers of the line *)
+Lemma read_list_line_plain T sp o x raw :
+  existsb snd raw = false -> Qltb x (s_min sp) || Qltb (s_max sp) x = false ->
+  read_list_line T sp o x None raw = ROk (mkO (map fst raw) (o_cur o) (o_pref o)).
+Proof. intros Hs Hr. unfold read_list_line. rewrite Hr, Hs. reflexivity. Qed.
+
+(* ------------------------------------------------------------------------------------------------------------ *)
 (* well-formedness of a generated registry table                                                                  *)
 (* ------------------------------------------------------------------------------------------------------------ *)
 
